@@ -1081,9 +1081,29 @@ class AttrParser(BaseParser):
             )
             res = DenseArrayBase.from_list(element_type, values)
         else:
+
+            def parse_float_element() -> float:
+                # NaNs, infinities and some large values are printed as the
+                # hexadecimal bit pattern of the value.
+                token = self._current_token
+                if token.kind == MLIRTokenKind.INTEGER_LIT and token.text[:2] in (
+                    "0x",
+                    "0X",
+                ):
+                    self._consume_token()
+                    bits = token.kind.get_int_value(token.span)
+                    try:
+                        raw = bits.to_bytes(element_type.compile_time_size, "little")
+                    except OverflowError:
+                        self.raise_error(
+                            f"hexadecimal float literal out of range for {element_type}",
+                            token.span,
+                        )
+                    return next(iter(element_type.iter_unpack(raw)))
+                return self.parse_float()
+
             values = self.parse_comma_separated_list(
-                self.Delimiter.NONE,
-                lambda: self.parse_float(),
+                self.Delimiter.NONE, parse_float_element
             )
             res = DenseArrayBase.from_list(element_type, values)
 
